@@ -400,6 +400,9 @@ impl Prop for RoundTrip {
                 };
                 let i = rd_dt(&d);
                 let lf = tl::fields(i + off.unwrap_or(0) as i128 * tl::NS);
+                if let Err(why) = canonical_dt(&d) {
+                    return (format!("<non-canonical value: {}>", why), i, off, (lf.year, lf.month, lf.dom), lf.day_ns);
+                }
                 (d.format(&pattern), i, off, (lf.year, lf.month, lf.dom), lf.day_ns)
             }),
         });
